@@ -51,7 +51,9 @@ Definition nl_rec_finish (nfields : nat) (packed : bool) (aligned : option Z) (o
       | None => (offset, align)
       end
     end in
-  if offset =? 0 then (emptysize, emptysize) else (offset, align).
+  (* a record made only of zero sized fields keeps the alignment of its fields (repaired in 61ca8bb:
+     align = math.max(align, offset) with offset = emptysize) *)
+  if offset =? 0 then (emptysize, Z.max align emptysize) else (offset, align).
 
 Definition nl_uni_finish (size align : Z) : Z * Z :=
   if size =? 0 then (emptysize, emptysize) else (align_forward size align, align).
@@ -109,18 +111,20 @@ Definition static_assert_holds (t : ty) : bool :=
   let '(s, a) := nl t in
   if 0 <? s then (fst (cl t) =? s) && (snd (cl t) =? a) else true.
 
-(* well-formed type trees: primitives of the table, arrays of at least one element, user
-   alignments that are powers of two (up to 65536), and an `aligned` record is not of size zero *)
+(* well-formed type trees: primitives of the table, arrays of any length >= 0, user alignments that are
+   powers of two (up to 65536) on records that have at least one field, unions of non-zero size.
+   (What is left out is exactly what is still false on the unchanged tree: a zero-size union and an
+   `aligned` record without fields forget their alignment.) *)
 Definition is_pow2 (a : Z) : bool := (0 <? a) && (Z.land a (a - 1) =? 0).
 Fixpoint wfb (t : ty) : bool :=
   match t with
   | TPrim k => (k <? length nelua_prims)%nat
   | TPtr => true
-  | TArr t n => wfb t && (1 <=? n)
+  | TArr t n => wfb t && (0 <=? n)
   | TRec fs packed aligned =>
     forallb wfb fs &&
-    match aligned with Some A => is_pow2 A && (A <=? 65536) && negb (fst (cl (TRec fs packed None)) =? 0) | None => true end
-  | TUni fs => forallb wfb fs
+    match aligned with Some A => is_pow2 A && (A <=? 65536) && negb (Nat.eqb (length fs) 0) | None => true end
+  | TUni fs => forallb wfb fs && negb (fst (cl (TUni fs)) =? 0)
   end.
 
 (* ------------------------------------------------------------------ *)
